@@ -29,7 +29,10 @@ GetClauses(e) ==
   [ C16_get_returns_samples_between_nearest_indices |-> OkA(e) =>
         \E i \in Near(e.args.t0, M), j \in Near(e.args.t1, M) : e.ret = Cut(s, i, j),
     C16_whole_samples |-> e.aligned,
-    C16_get_does_not_edit |-> e.post = e.pre ]
+    C16_get_does_not_edit |-> e.post = e.pre,
+    \* getSubwav: the excerpt is a recording of its own (e.alias: it is the receiver itself, or a sample appended to it showed
+    \* in the receiver)
+    C16_excerpt_shares_nothing_with_the_recording |-> ~("alias" \in DOMAIN e /\ e.alias) ]
 DeleteClauses(e) ==
   LET M == e.M  s == e.pre IN
   [ C16_delete_removes_exactly_those_samples |-> OkA(e) =>
